@@ -101,6 +101,72 @@ Section CfgReentrant.
   Proof. intro w. unfold transition_to. cgo; first [apply transition_body_CK | apply transition_to_failing_CK]. Qed.
 End CfgReentrant.
 
+Section CfgControl.
+  Variable rec_ctl : ctl -> LM cret.
+  Hypothesis Hrec : forall c, CK (rec_ctl c).
+  Lemma state_interrupt_CK iid : CK (state_interrupt iid). Proof. intro w. unfold state_interrupt, schedule. cgo. Qed.
+  Lemma state_recall_CK iid : CK (state_recall iid). Proof. intro w. unfold state_recall, fresh. cgo. Qed.
+  Lemma do_pause_CK msg next : CK (do_pause rec_ctl msg next).
+  Proof. intro w. unfold do_pause. cgo; first [apply transition_to_CK; exact Hrec | apply hook_CK | apply fresh_CK | apply fire_CK; exact Hrec]. Qed.
+  Lemma pause_CK msg : CK (pause rec_ctl msg).
+  Proof. intro w. unfold pause. cgo; first [apply fresh_CK | apply sia_from_CK | apply state_interrupt_CK | apply do_pause_CK]. Qed.
+  Lemma play_CK : CK (play rec_ctl).
+  Proof.
+    intro w. unfold play, cancel_act, set_act_fut. cgo;
+      first [apply state_recall_CK | apply sia_CK | apply hook_CK | apply schedule_CK | apply fire_CK; exact Hrec].
+  Qed.
+  Lemma kill_CK msg : CK (kill rec_ctl msg).
+  Proof. intro w. unfold kill. cgo; first [apply fresh_CK | apply sia_from_CK | apply state_interrupt_CK | apply transition_to_CK; exact Hrec]. Qed.
+  Lemma resume_CK v : CK (resume v). Proof. intro w. unfold resume, fresh, schedule. cgo. Qed.
+  Lemma fail_CK x : CK (fail rec_ctl x). Proof. intro w. unfold fail. cgo. apply transition_to_CK; exact Hrec. Qed.
+  Lemma ctl_body_CK c : CK (ctl_body rec_ctl c).
+  Proof. destruct c; cbn [ctl_body]; [apply pause_CK | apply play_CK | apply kill_CK | apply resume_CK | apply fail_CK | intro w; cgo]. Qed.
+End CfgControl.
+
+Lemma do_ctl_CK fuel : forall c, CK (do_ctl fuel c).
+Proof. induction fuel as [|f IH]; intro c; cbn [do_ctl]; [intro w; cgo | apply ctl_body_CK; exact IH]. Qed.
+Lemma ctl_observed_CK c : CK (ctl_observed c). Proof. intro w. unfold ctl_observed, ctl_call. cgo. apply do_ctl_CK. Qed.
+Lemma transition_CK ns : CK (transition ns). Proof. unfold transition. apply transition_to_CK. apply do_ctl_CK. Qed.
+Lemma do_out_CK path v : CK (do_out path v).
+Proof. intro w. unfold do_out. cgo; first [apply hook_CK | apply emit_CK | apply fire_CK; apply do_ctl_CK]. Qed.
+Lemma set_t0_CK p : CK (set_t0 p). Proof. intro w. unfold set_t0. cgo. Qed.
+Lemma run_actions_CK acts r : CK (run_actions acts r).
+Proof.
+  induction acts as [|a rest IH]; intro w; cbn [run_actions]; [cgo|].
+  destruct a; cgo; first [apply IH | apply do_out_CK | apply schedule_CK | apply set_t0_CK | apply ctl_observed_CK | apply emit_CK].
+Qed.
+Lemma after_run_fn_CK o : CK (after_run_fn o). Proof. intro w. unfold after_run_fn. cgo. apply fresh_CK. Qed.
+Lemma after_waiting_CK fn aw wk : CK (after_waiting fn aw wk).
+Proof. intro w. unfold after_waiting, after_waiting_once, await_current, set_t0'. cgo; apply fresh_CK. Qed.
+Lemma execute_state_CK : CK execute_state.
+Proof. intro w. unfold execute_state. cgo; first [apply emit_CK | apply run_actions_CK | apply after_run_fn_CK | apply after_waiting_CK | apply set_t0_CK]. Qed.
+Lemma run_action_CK id next : CK (run_action id next).
+Proof. intro w. unfold run_action, set_act_fut. cgo; first [apply do_pause_CK; apply do_ctl_CK | apply transition_CK]. Qed.
+Lemma run_armed_CK fuel : forall ran, CK (run_armed fuel ran).
+Proof. induction fuel as [|f IH]; intros ran w; cbn [run_armed]; cgo; first [apply run_action_CK | apply IH]. Qed.
+Lemma finish_step_CK x : CK (finish_step x).
+Proof. intro w. unfold finish_step. cgo; first [apply sia_from_CK | apply sia_CK | apply run_action_CK | apply run_armed_CK | apply transition_CK]. Qed.
+Lemma loop_head_CK fuel : CK (loop_head fuel).
+Proof. induction fuel as [|f IH]; intro w; cbn [loop_head]; cgo; first [apply set_t0_CK | apply execute_state_CK | apply finish_step_CK | apply IH]. Qed.
+Lemma resume_t0_CK wk : CK (resume_t0 wk).
+Proof.
+  intro w. unfold resume_t0. cgo;
+    first [apply loop_head_CK | apply set_t0_CK | apply execute_state_CK | apply finish_step_CK | apply run_actions_CK | apply after_run_fn_CK | apply after_waiting_CK].
+Qed.
+Lemma run_entry_CK r : CK (run_entry r).
+Proof. intro w. unfold run_entry, ctl_call. cgo; first [apply resume_t0_CK | apply set_t0_CK | apply emit_CK | apply ctl_observed_CK | apply do_ctl_CK]. Qed.
+Lemma tick_CK : CK tick. Proof. intro w. unfold tick. cgo. apply run_entry_CK. Qed.
+Lemma drain_CK n : CK (drain n). Proof. induction n as [|n IH]; intro w; cbn [drain]; cgo; first [apply tick_CK | apply IH]. Qed.
+Lemma env_step_m_CK ev : CK (env_step_m ev).
+Proof. intro w. destruct ev; cbn [env_step_m]; cgo; first [apply tick_CK | apply ctl_observed_CK | apply emit_CK | apply schedule_CK | apply drain_CK]. Qed.
+
+Lemma run_from_cfg es : forall w, cfg (run_from w es) = cfg w.
+Proof.
+  induction es as [|ev es IH]; intro w; [reflexivity|]. change (cfg (run_from (env_step w ev) es) = cfg w). rewrite IH. unfold env_step.
+  apply (wp_run (env_step_m ev) (fun _ w' => cfg w' = cfg w) w). apply env_step_m_CK; [exact I | auto].
+Qed.
+
+
 Section Fault.
   Variables (h : string) (k : nat) (e : exn).
   Hypothesis Hsm : smhook h = true.
@@ -591,4 +657,718 @@ Section Fault.
         + do 4 wp_prim. intros Hto F Hn _. destruct (Hfin Hto F Hn) as [[] _].
     Qed.
   End TransitionN.
+
+  (* ---------------------------------------------------------------- HK: the invariant [handled] at control level *)
+  Definition HPre (w : world) : Prop := GA w /\ handled w.
+  Definition HRel (w w' : world) : Prop := RT None w w' /\ handled w'.
+  Lemma HRel_refl w : HPre w -> HRel w w. Proof. intros [G H]. split; [apply RT_refl; exact G | exact H]. Qed.
+  Lemma HRel_trans a b c : HRel a b -> HRel b c -> HRel a c.
+  Proof. intros [R1 _] [R2 H2]. split; [eapply RT_trans; eauto | exact H2]. Qed.
+  Lemma HRel_pre a b : HPre a -> HRel a b -> HPre b.
+  Proof. intros _ [R H]. split; [apply R | exact H]. Qed.
+  Notation Hkat := (Hat HPre HRel).
+  Definition HK {A} (m : LM A) : Prop := forall w, Hkat m w.
+
+  Section CombH.
+    Context {A B : Type}.
+    Lemma Hk_ret (a : A) w : Hkat (ret a) w. Proof. apply Hat_ret. exact HRel_refl. Qed.
+    Lemma Hk_raise x w : Hkat (raise x : LM A) w. Proof. apply Hat_raise. exact HRel_refl. Qed.
+    Lemma Hk_bind (m : LM A) (f : A -> LM B) w : Hkat m w -> (forall a, HK (f a)) -> Hkat (bind m f) w.
+    Proof. intros H1 H2. eapply Hat_bind; [exact HRel_trans | exact HRel_pre | exact H1 | intros a w1; apply H2]. Qed.
+    Lemma Hk_get (f : world -> LM A) w : Hkat (f w) w -> Hkat (bind get f) w. Proof. apply Hat_get. Qed.
+    Lemma Hk_attempt (m : LM A) w : Hkat m w -> Hkat (attempt m) w. Proof. apply Hat_attempt. Qed.
+    Lemma Hk_finally (m : LM A) f w : Hkat m w -> HK f -> Hkat (finally m f) w.
+    Proof. intros H1 H2. eapply Hat_finally; [exact HRel_trans | exact HRel_pre | exact H1 | exact H2]. Qed.
+  End CombH.
+  Lemma Hk_when b (m : LM unit) w : (b = true -> Hkat m w) -> Hkat (when b m) w.
+  Proof. apply Hat_when. exact HRel_refl. Qed.
+  Lemma HK_mapM {A} (f : A -> LM unit) l : (forall x, HK (f x)) -> HK (mapM_ f l).
+  Proof. intros H w. eapply Hat_mapM; [exact HRel_refl | exact HRel_trans | exact HRel_pre | intros x w1; apply H]. Qed.
+
+  Ltac hstep :=
+    lazymatch goal with
+    | |- HK _ => intro
+    | |- Hat HPre HRel (bind get _) _ => apply Hk_get; cbv beta
+    | |- Hat HPre HRel (bind _ _) _ => apply Hk_bind; [ | intro ]
+    | |- Hat HPre HRel (ret _) _ => apply Hk_ret
+    | |- Hat HPre HRel (raise _) _ => apply Hk_raise
+    | |- Hat HPre HRel (attempt _) _ => apply Hk_attempt
+    | |- Hat HPre HRel (finally _ _) _ => apply Hk_finally
+    | |- Hat HPre HRel (when _ _) _ => apply Hk_when; intro
+    | |- Hat _ _ (match ?x with _ => _ end) _ => destruct x eqn:?
+    | |- Hat _ _ (if ?x then _ else _) _ => destruct x eqn:?
+    | |- Hat _ _ (let _ := _ in _) _ => cbv zeta
+    end.
+
+  (* what keeps [handled]: the counter of h and a terminal state are left alone *)
+  Definition keepH (w w' : world) : Prop := cnt w' = cnt w /\ (is_terminated w = true -> st w' = st w).
+  Lemma keepH_handled w w' : cfg w' = cfg w -> keepH w w' -> handled w -> handled w'.
+  Proof.
+    intros C [N S] H F Hk. unfold flt in F. rewrite C in F. rewrite N in Hk. pose proof (H F Hk) as Hs.
+    rewrite S; [exact Hs|]. unfold is_terminated. rewrite Hs. reflexivity.
+  Qed.
+
+  (* a first-pass control-level operation that is also such a frame *)
+  Lemma leaf_HK {A} (m : LM A) : XK m -> (forall w, wp m (fun _ w' => keepH w w') w) -> HK m.
+  Proof.
+    intros HX HN w Q [G H] HQ.
+    eapply wp_use; [apply wp_conj; [apply (HX w (fun _ w' => RK w w')); [exact G | auto] | apply HN]|].
+    intros r w' [R Kp]. apply HQ. split; [exact R|]. apply (keepH_handled w w'); [apply R | exact Kp | exact H].
+  Qed.
+
+  Lemma FrN_keepH {A} (m : LM A) : FrN m -> forall w, wp m (fun _ w' => keepH w w') w.
+  Proof. intros H w. apply H. intros r w' (_ & _ & O & S). split; [unfold cnt; rewrite O; reflexivity | exact S]. Qed.
+
+  Lemma hook_other_keepH name : String.eqb h name = false -> forall w, wp (hook name) (fun _ w' => keepH w w') w.
+  Proof.
+    intros Hne w. unfold hook, emit. repeat (wp_prim || wp_case); (split; [unfold cnt; cbn; apply nat_assoc_bump_other; exact Hne | reflexivity]).
+  Qed.
+
+  Lemma cancel_disarm_FrN a : FrN (bind (cancel_act a) (fun _ => bind (modify (fun w => w <| pausing := None |>)) (fun _ => set_interrupt_action None))).
+  Proof. unfold set_interrupt_action, cancel_act, set_act_fut. frn_auto. Qed.
+
+  Section ControlH.
+    Variable rec_ctl : ctl -> LM cret.
+    Hypothesis HrecH : forall c, HK (rec_ctl c).
+    Hypothesis HrecE : forall c, EK (rec_ctl c).
+    Hypothesis HrecX : forall c, XK (rec_ctl c).
+
+    Lemma fire_HK name : HK (fire rec_ctl name).
+    Proof.
+      intros w Q [G H] HQ. unfold fire, emit. repeat wp_prim.
+      match goal with |- wp _ _ ?w1 => assert (R1 : HRel w w1) end.
+      { split.
+        - eapply (bump_RT None); try reflexivity; [exact G|]. apply errs_ok_snoc; [apply G | reflexivity].
+        - apply (keepH_handled w); [reflexivity | | exact H]. split; [|reflexivity].
+          unfold cnt. cbn. apply nat_assoc_bump_other. apply sm_not_listener. }
+      apply (wp_mapM_inv _ (fun s => HRel w s)); [exact R1 | | intros s' Hs; apply HQ; exact Hs].
+      intros ls s1 _ R. destruct (String.eqb (ls_event ls) name && Nat.eqb (ls_occ ls) (nat_assoc ("L:" ++ name) (occ w))).
+      - do 2 wp_prim. apply HrecH; [eapply HRel_pre; [split; [exact G | exact H] | exact R]|]. intros r s2 R2. wp_prim. split; [reflexivity|].
+        eapply HRel_trans; [exact R|]. eapply HRel_trans; [exact R2|]. destruct R2 as [R2 H2]. split.
+        + apply eeq_RT; [apply R2|]. repeat split; try reflexivity. intro X. apply errs_ok_snoc; [exact X | reflexivity].
+        + apply (keepH_handled s2); [reflexivity | split; reflexivity | exact H2].
+      - wp_prim. split; [reflexivity | exact R].
+    Qed.
+
+    Ltac hmod := apply leaf_HK; [apply FrX_XT; apply modify_FrX; intro; repeat split; auto
+                               | apply FrN_keepH; apply modify_FrN; intro; repeat split; reflexivity].
+    Ltac hleaf :=
+      first [ apply fire_HK
+            | apply leaf_HK; [apply hook_XT | apply hook_other_keepH; apply sm_not_other; cbn; tauto]
+            | apply leaf_HK; [apply FrX_XT; apply fresh_FrX | apply FrN_keepH; apply fresh_FrN]
+            | apply leaf_HK; [apply FrX_XT; apply schedule_FrX | apply FrN_keepH; apply schedule_FrN]
+            | apply leaf_HK; [apply FrX_XT; apply state_interrupt_FrX | apply FrN_keepH; apply state_interrupt_FrN]
+            | apply leaf_HK; [apply FrX_XT; apply state_recall_FrX | apply FrN_keepH; apply state_recall_FrN]
+            | apply leaf_HK; [apply FrX_XT; apply resume_FrX | apply FrN_keepH; apply resume_FrN]
+            | apply leaf_HK; [apply sia_from_XT | apply FrN_keepH; apply sia_from_FrN]
+            | apply leaf_HK; [apply cancel_disarm_XT | apply FrN_keepH; apply cancel_disarm_FrN]
+            | hmod ].
+    Ltac hauto := repeat first [ hstep | hleaf ].
+
+    Lemma do_pause_HK msg : HK (do_pause rec_ctl msg None).
+    Proof. intro w. unfold do_pause. hauto. Qed.
+
+    Lemma pause_HK msg : HK (pause rec_ctl msg).
+    Proof. intro w. unfold pause. hauto. apply do_pause_HK. Qed.
+
+    Lemma play_HK : HK (play rec_ctl).
+    Proof.
+      intro w. unfold play. hstep. hstep.
+      - hauto.
+      - hstep; [|hauto]. hstep; [|hauto]. hstep; [hauto | hstep; hleaf].
+    Qed.
+
+    (* a transition to KILLED / EXCEPTED requested by a control call on a live process *)
+    Lemma transition_terminal_H ns w (Q : result unit -> world -> Prop) :
+      HPre w -> (label_of ns = LKilled \/ label_of ns = LExcepted) -> is_terminated w = false ->
+      (forall r w', HRel w w' -> Q r w') -> wp (transition_to rec_ctl (Some ns)) Q w.
+    Proof.
+      intros [G H] Hlab Hl HQ.
+      assert (Ht : terminal (label_of ns) = true) by (destruct Hlab as [-> | ->]; reflexivity).
+      eapply wp_use; [apply wp_conj; [apply wp_conj; [apply (transition_terminal rec_ctl HrecX ns w (fun _ w' => RK w w')); [exact G | exact Ht | auto] |
+                                      apply (transition_to_exc rec_ctl HrecE HrecX ns w G)] |
+                                      apply (transition_to_EK rec_ctl HrecE (Some ns) w (fun _ w' => EXr w w')); [exact I | auto]]|].
+      intros r w' [[R X] (_ & _ & E3)]. apply HQ. split; [exact R|]. intros F' Hk'.
+      assert (F : flt w) by (unfold flt in *; destruct R as (_ & C & _); rewrite <- C; exact F').
+      assert (Hn : ~ k < cnt w).
+      { intro Hk. pose proof (H F Hk) as Hs. unfold is_terminated in Hl. rewrite Hs in Hl. discriminate. }
+      destruct (transitioning w) eqn:Etr.
+      - exfalso. apply Hn. destruct (E3 eq_refl) as [N _]. rewrite <- N. exact Hk'.
+      - apply X; [| exact F | exact Hn | exact Hk'].
+        split; [exact Etr|]. split; [apply (live_to_terminal _ _ G Hl Hlab) | destruct Hlab as [-> | ->]; discriminate].
+    Qed.
+
+    Lemma kill_HK msg : HK (kill rec_ctl msg).
+    Proof.
+      intros w Q P HQ. unfold kill. do 2 wp_prim.
+      assert (Hret : forall c, wp (ret c) Q w) by (intro c; wp_prim; apply HQ; apply HRel_refl; exact P).
+      assert (Hmain : wp (if is_terminated w then ret (CrBool false) else
+                          match killing w with
+                          | Some a => ret (CrAction a)
+                          | None => if stepping w
+                                    then bind fresh (fun iid => bind (set_interrupt_action_from (KKill msg) iid) (fun a =>
+                                         bind (modify (fun w => w <| killing := Some a |>)) (fun _ => bind (state_interrupt iid) (fun _ => ret (CrAction a)))))
+                                    else bind (transition_to rec_ctl (Some (SKilled (Some msg)))) (fun _ => ret (CrBool true))
+                          end) Q w).
+      { destruct (is_terminated w) eqn:Et; [apply Hret|]. destruct (killing w); [apply Hret|]. destruct (stepping w).
+        - assert (Harm : Hkat (bind fresh (fun iid => bind (set_interrupt_action_from (KKill msg) iid) (fun a =>
+                           bind (modify (fun w => w <| killing := Some a |>)) (fun _ => bind (state_interrupt iid) (fun _ => ret (CrAction a)))))) w) by hauto.
+          apply Harm; assumption.
+        - wp_prim. apply transition_terminal_H; [exact P | left; reflexivity | exact Et|]. intros r1 w1 R1. destruct r1; cbv beta iota.
+          + wp_prim. apply HQ. exact R1.
+          + apply HQ. exact R1. }
+      destruct (st w) as [[]|]; try exact Hmain. apply Hret.
+    Qed.
+
+    Lemma fail_HK x : HK (fail rec_ctl x).
+    Proof.
+      intros w Q P HQ. unfold fail. do 2 wp_prim. destruct (is_terminated w) eqn:Et.
+      { wp_prim. apply HQ. apply HRel_refl. exact P. }
+      wp_prim. apply transition_terminal_H; [exact P | right; reflexivity | exact Et|]. intros r1 w1 R1. destruct r1; cbv beta iota; [|apply HQ; exact R1].
+      do 2 wp_prim. destruct (st w1) as [[]|]; wp_prim; apply HQ; exact R1.
+    Qed.
+
+    Lemma ctl_body_HK c : HK (ctl_body rec_ctl c).
+    Proof.
+      destruct c; cbn [ctl_body]; [apply pause_HK | apply play_HK | apply kill_HK | | apply fail_HK | intro w; apply Hk_raise].
+      apply leaf_HK; [apply FrX_XT; apply resume_FrX | apply FrN_keepH; apply resume_FrN].
+    Qed.
+  End ControlH.
+
+  Lemma do_ctl_HK fuel : forall c, HK (do_ctl fuel c).
+  Proof.
+    induction fuel as [|f IH]; intros c; cbn [do_ctl]; [intro w; apply Hk_raise|].
+    apply ctl_body_HK; [exact IH | apply do_ctl_EK | intro; apply do_ctl_XK].
+  Qed.
+
+  (* ---------------------------------------------------------------- step level with [handled] *)
+  Definition OPreH (w : world) : Prop := OPre w /\ handled w.
+  Definition ROH (w w' : world) : Prop := RO w w' /\ handled w'.
+  Lemma ROH_refl w : OPreH w -> ROH w w. Proof. intros [P H]. split; [apply RO_refl; exact P | exact H]. Qed.
+  Lemma ROH_trans a b c : ROH a b -> ROH b c -> ROH a c.
+  Proof. intros [R1 _] [R2 H2]. split; [eapply RO_trans; eauto | exact H2]. Qed.
+  Lemma ROH_pre a b : ROH a b -> OPreH b. Proof. intros [R H]. split; [eapply RO_pre; eauto | exact H]. Qed.
+  Lemma HRel_ROH w w' : OPreH w -> HRel w w' -> ROH w w'.
+  Proof. intros [P _] [R H]. split; [apply RK_RO; assumption | exact H]. Qed.
+  Lemma frame_ROH w w' : OPreH w -> oeq w w' -> keepH w w' -> ROH w w'.
+  Proof. intros [P H] E Kp. split; [apply oeq_RO; assumption|]. apply (keepH_handled w); [apply E | exact Kp | exact H]. Qed.
+
+  Definition OatH {A} (m : LM A) (w : world) : Prop :=
+    forall Q : result A -> world -> Prop, OPreH w -> (forall a w', ROH w w' -> Q (Ok a) w') -> wp m Q w.
+  Lemma OatH_bind {A B} (m : LM A) (f : A -> LM B) w : OatH m w -> (forall a w1, OatH (f a) w1) -> OatH (bind m f) w.
+  Proof.
+    intros Hm Hf Q P HQ. wp_prim. apply Hm; [exact P|]. intros a w1 R1. cbv beta iota.
+    apply Hf; [eapply ROH_pre; eauto|]. intros b w2 R2. apply HQ. eapply ROH_trans; eauto.
+  Qed.
+  Lemma OatH_ret {A} (a : A) w : OatH (ret a) w.
+  Proof. intros Q P HQ. wp_prim. apply HQ. apply ROH_refl. exact P. Qed.
+
+  Definition FrOH {A} (m : LM A) : Prop :=
+    forall w (Q : result A -> world -> Prop), (forall a w', oeq w w' -> keepH w w' -> Q (Ok a) w') -> wp m Q w.
+  Lemma FrOH_OatH {A} (m : LM A) w : FrOH m -> OatH m w.
+  Proof. intros H Q P HQ. apply H. intros a w' E Kp. apply HQ. apply frame_ROH; assumption. Qed.
+
+  Ltac oh_done :=
+    first [ (split; [eeq_done | split; [reflexivity | neq_done]]) ].
+  Ltac froh_auto := intros w Q HQ; repeat (wp_prim || wp_case); apply HQ; [eeq_done | split; [reflexivity | neq_done]].
+
+  Lemma set_t0_FrOH p : okpc p -> FrOH (set_t0 p).
+  Proof. intros Hp w Q HQ. unfold set_t0. wp_prim. apply HQ; [repeat split; auto | split; [reflexivity | neq_done]]. Qed.
+  Lemma schedule_FrOH r : FrOH (schedule r). Proof. unfold schedule. froh_auto. Qed.
+  Lemma emit_FrOH ev : ev_ok ev = true -> FrOH (emit ev).
+  Proof.
+    intros He w Q HQ. unfold emit. wp_prim. apply HQ; [|split; [reflexivity | neq_done]].
+    repeat split; try reflexivity; [intro H; apply errs_ok_snoc; assumption | exact (fun H => H)].
+  Qed.
+
+  Lemma put_Hk w w' : eeq w w' -> keepH w w' -> Hkat (put w') w.
+  Proof.
+    intros E Kp Q [G H] HQ. wp_prim. apply HQ. split; [apply eeq_RT; assumption|]. apply (keepH_handled w); [apply E | exact Kp | exact H].
+  Qed.
+  Lemma modify_HK f : (forall w, eeq w (f w)) -> (forall w, neq w (f w)) -> HK (modify f).
+  Proof. intros H1 H2. apply leaf_HK; [apply FrX_XT; apply modify_FrX; exact H1 | apply FrN_keepH; apply modify_FrN; exact H2]. Qed.
+  Lemma emit_HK ev : ev_ok ev = true -> HK (emit ev).
+  Proof. intro He. apply leaf_HK; [apply FrX_XT; apply emit_FrX; exact He | apply FrN_keepH; apply emit_FrN]. Qed.
+
+  Lemma do_out_HK path v : HK (do_out path v).
+  Proof.
+    intros w. unfold do_out. hstep. hstep; [hstep|].
+    hstep; [apply leaf_HK; [apply hook_XT | apply hook_other_keepH; apply sm_not_other; cbn; tauto]|]. hstep. hstep.
+    hstep; [apply put_Hk; [repeat split; auto | split; [reflexivity | neq_done]]|].
+    hstep. hstep; [hstep|]. destruct p as [outs' dyn].
+    hstep; [apply modify_HK; intro; repeat split; auto|]. hstep.
+    hstep; [apply emit_HK; reflexivity|]. hstep.
+    apply (fire_HK (do_ctl reent_fuel)); [apply do_ctl_HK].
+  Qed.
+
+  Lemma K_OatH {A} (m : LM A) w : HK m -> OatH (attempt m) w.
+  Proof. intros H Q P HQ. wp_prim. apply H; [split; [apply P | apply P]|]. intros r w' R. apply HQ. apply HRel_ROH; assumption. Qed.
+
+  Lemma ctl_observed_H c w (Q : result cret -> world -> Prop) :
+    HPre w -> (forall x w', HRel w w' -> Q (Ok x) w') -> wp (ctl_observed c) Q w.
+  Proof.
+    intros P HQ. unfold ctl_observed, ctl_call. do 2 wp_prim. apply do_ctl_HK; [exact P|]. intros r w' R. wp_prim. apply HQ. exact R.
+  Qed.
+
+  Lemma run_actions_OH acts r : forall w, OatH (run_actions acts r) w.
+  Proof.
+    induction acts as [|a rest IH]; intro w; cbn [run_actions]; [apply OatH_ret|].
+    destruct a.
+    - apply OatH_bind; [apply K_OatH; apply do_out_HK|]. intros [u|x] w1; [apply IH | apply OatH_ret].
+    - apply OatH_bind; [apply FrOH_OatH; apply schedule_FrOH|]. intros _ w1. apply OatH_bind; [apply FrOH_OatH; apply set_t0_FrOH; exact I|]. intros _ w2. apply OatH_ret.
+    - intros Q P HQ. do 2 wp_prim. destruct (find (fun kw => Nat.eqb (fst kw) k0) (exts w)) as [[k' wk]|].
+      + destruct wk; first [apply IH; assumption | apply OatH_ret; assumption].
+      + apply (OatH_bind (set_t0 _) _ w); [apply FrOH_OatH; apply set_t0_FrOH; exact I | intros _ w2; apply OatH_ret | exact P | exact HQ].
+    - intros Q P HQ. wp_prim. apply ctl_observed_H; [split; [apply P | apply P]|]. intros x w1 R1. cbv beta iota.
+      pose proof (HRel_ROH _ _ P R1) as O1. wp_prim. apply emit_FrOH; [reflexivity|]. intros _ w2 E2 K2. cbv beta iota.
+      pose proof (ROH_trans _ _ _ O1 (frame_ROH _ _ (ROH_pre _ _ O1) E2 K2)) as O2.
+      apply IH; [eapply ROH_pre; eauto|]. intros o w3 O3. apply HQ. eapply ROH_trans; eauto.
+    - apply OatH_bind; [apply FrOH_OatH; apply schedule_FrOH|]. intros _ w1. apply IH.
+    - intros Q P HQ. do 2 wp_prim. apply (OatH_bind (emit _) _ w); [apply FrOH_OatH; apply emit_FrOH; reflexivity | intros _ w1; apply IH | exact P | exact HQ].
+    - apply OatH_bind; [|intros _ w1; apply IH]. apply FrOH_OatH. intros w0 Q HQ. wp_prim. apply HQ; [repeat split; auto | split; [reflexivity | neq_done]].
+  Qed.
+
+  Lemma after_run_fn_specH o w (Q : result exec_out -> world -> Prop) :
+    OPreH w -> run_or_term w ->
+    (forall x w', ROH w w' -> xo_ok x w' -> Q (Ok x) w') -> wp (after_run_fn o) Q w.
+  Proof.
+    intros [P H] Hr HQ.
+    eapply wp_use; [apply (wp_conj _ (fun r w' => exists x, r = Ok x /\ RO w w' /\ xo_ok x w') (fun _ w' => cfg w' = cfg w /\ keepH w w'))|].
+    - apply after_run_fn_spec; [exact P | exact Hr | intros x w' R X; exists x; auto].
+    - unfold after_run_fn, fresh. destruct o; repeat (wp_prim || wp_case); (split; [reflexivity | split; [reflexivity | neq_done]]).
+    - intros r w' [(x & -> & R & X) [C Kp]]. apply HQ; [|exact X]. split; [exact R|]. apply (keepH_handled w); assumption.
+  Qed.
+
+  Lemma after_waiting_specH fn awaited wk w (Q : result exec_out -> world -> Prop) :
+    OPreH w ->
+    (forall x w', ROH w w' -> xo_ok x w' -> Q (Ok x) w') -> wp (after_waiting fn awaited wk) Q w.
+  Proof.
+    intros [P H] HQ.
+    eapply wp_use; [apply (wp_conj _ (fun r w' => exists x, r = Ok x /\ oeq w w' /\ xo_ok x w') (fun _ w' => keepH w w'))|].
+    - apply after_waiting_spec; [apply GA_lbl; apply P | intros x w' E X; exists x; auto].
+    - unfold after_waiting, after_waiting_once, await_current, fresh, set_t0'. repeat (wp_prim || wp_case); (split; [reflexivity | neq_done]).
+    - intros r w' [(x & -> & E & X) Kp]. apply HQ; [|exact X]. apply frame_ROH; [split; assumption | exact E | exact Kp].
+  Qed.
+
+  Lemma execute_state_specH w (Q : result exec_out -> world -> Prop) :
+    OPreH w -> (forall x w', ROH w w' -> xo_ok x w' -> Q (Ok x) w') -> wp execute_state Q w.
+  Proof.
+    intros P HQ. unfold execute_state. do 2 wp_prim. pose proof (GA_lbl _ (proj1 (proj1 P))) as G5.
+    destruct (st w) as [cur|] eqn:Hst; [|exfalso; apply G5; unfold cur_label; rewrite Hst; reflexivity].
+    destruct cur.
+    - wp_prim. apply HQ; [apply ROH_refl; exact P | apply legal_always; [exact G5 | left; reflexivity]].
+    - wp_prim. apply emit_FrOH; [reflexivity|]. intros _ w1 E1 K1. cbv beta iota.
+      pose proof (frame_ROH _ _ P E1 K1) as R1.
+      assert (Hr1 : run_or_term w1).
+      { right. destruct E1 as (_ & E1 & _). rewrite E1. unfold cur_label. rewrite Hst. reflexivity. }
+      destruct (lookup_script w fn).
+      + wp_prim. apply run_actions_OH; [eapply ROH_pre; eauto|]. intros o w2 R2. cbv beta iota.
+        apply after_run_fn_specH; [eapply ROH_pre; eauto | eapply run_or_term_stable; [apply R2 | exact Hr1]|].
+        intros x w3 R3 X3. apply HQ; [eapply ROH_trans; [exact R1|]; eapply ROH_trans; eauto | exact X3].
+      + wp_prim. apply HQ; [exact R1 | apply legal_always; [apply GA_lbl; apply R1 | right; left; reflexivity]].
+    - destruct wf.
+      + unfold set_t0. do 3 wp_prim. apply HQ; [apply frame_ROH; [exact P | eeq_done | split; [reflexivity | neq_done]] | exact I].
+      + apply after_waiting_specH; [exact P|]. intros x w1 R1 X1. apply HQ; assumption.
+    - wp_prim. apply HQ; [apply ROH_refl; exact P | exact I].
+    - wp_prim. apply HQ; [apply ROH_refl; exact P | exact I].
+    - wp_prim. apply HQ; [apply ROH_refl; exact P | exact I].
+  Qed.
+
+  (* ---------------------------------------------------------------- the end of a step with [handled] *)
+  Lemma to_ok_live w ns : to_ok w ns -> is_terminated w = false.
+  Proof.
+    intros (_ & (l & Hl & Ha) & _). rewrite is_terminated_lbl, Hl. cbn. apply (allowed_not_terminal _ _ Ha).
+  Qed.
+
+  Lemma transition_H ns w (Q : result unit -> world -> Prop) :
+    OPreH w -> to_ok w ns -> (forall w', OPreH w' -> t0 w' = t0 w -> List.length (acts w) <= List.length (acts w') -> Q (Ok tt) w') ->
+    wp (transition (Some ns)) Q w.
+  Proof.
+    intros [P H] Hto HQ.
+    eapply wp_use; [apply (wp_conj _ (fun r w' => RT (Some (label_of ns)) w w' /\ is_ok r)
+                                     (fun r w' => to_ok w ns -> flt w -> ~ k < cnt w -> k < cnt w' -> st w' = Some (SExcepted e)))|].
+    - apply transition_spec; [apply P|]. intros r w' R Hok. split; [exact R | apply Hok; exact Hto].
+    - unfold transition. apply transition_to_exc; [apply do_ctl_EK | intro; apply do_ctl_XK | apply P].
+    - intros r w' [[R Hr] X]. destruct r as [[]|]; [|destruct Hr]. apply HQ; [|apply R|apply R].
+      split; [eapply OPre_of_RT; eauto|]. intros F' Hk'.
+      assert (F : flt w) by (unfold flt in *; destruct R as (_ & C & _); rewrite <- C; exact F').
+      apply X; [exact Hto | exact F | | exact Hk'].
+      intro Hk. pose proof (H F Hk) as Hs. pose proof (to_ok_live _ _ Hto) as Hl. unfold is_terminated in Hl. rewrite Hs in Hl. discriminate.
+  Qed.
+
+  (* do_pause with a next state = the transition, then do_pause without one *)
+  Lemma do_pause_split rec msg ns w (Q : result bool -> world -> Prop) :
+    wp (transition_to rec (Some ns))
+       (fun r1 w1 => match r1 with
+                     | Ok _ => wp (do_pause rec msg None) Q w1
+                     | Err x => Q (Err x) (w1 <| pausing := None |>)
+                     end) w ->
+    wp (do_pause rec msg (Some ns)) Q w.
+  Proof.
+    unfold wp, do_pause, finally, bind. destruct (transition_to rec (Some ns) w) as [[u|x] w1]; cbn; intro H; exact H.
+  Qed.
+
+  Lemma legal_to_ok w ns : transitioning w = false -> is_terminated w = false -> legal w (Some ns) -> to_ok w ns.
+  Proof. intros T Hl [X|[L1 L2]]; [congruence|]. split; [exact T | split; assumption]. Qed.
+
+  Lemma action_body_handled kd next w :
+    OPreH w -> is_terminated w = false -> legal w next ->
+    wp (match kd with
+        | KPause msg => do_pause (do_ctl reent_fuel) msg next
+        | KKill msg => finally (match next with
+                                | Some (SExcepted x) => bind (transition next) (fun _ => ret false)
+                                | _ => bind (transition (Some (SKilled (Some msg)))) (fun _ => ret true)
+                                end)
+                               (modify (fun w => w <| killing := None |>))
+        end) (fun _ w' => handled w') w.
+  Proof.
+    intros P Hl Hleg. pose proof P as [[G [T _]] H]. destruct kd as [msg|msg].
+    - destruct next as [ns|].
+      + apply do_pause_split. fold (transition (Some ns)). apply transition_H; [exact P | apply legal_to_ok; assumption|].
+        intros w1 [P1 H1] _ _. apply (do_pause_HK (do_ctl reent_fuel)); [apply do_ctl_HK | split; [apply P1 | exact H1]|].
+        intros r w2 [_ H2]. exact H2.
+      + apply (do_pause_HK (do_ctl reent_fuel)); [apply do_ctl_HK | split; assumption|]. intros r w2 [_ H2]. exact H2.
+    - assert (Hk : wp (finally (bind (transition (Some (SKilled (Some msg)))) (fun _ => ret true)) (modify (fun w => w <| killing := None |>)))
+                      (fun _ w' => handled w') w).
+      { do 2 wp_prim. apply transition_H; [exact P | |].
+        - split; [exact T|]. split; [apply live_to_terminal; [exact G | exact Hl | left; reflexivity] | discriminate].
+        - intros w1 [_ H1] _ _. cbv beta iota. do 2 wp_prim. exact H1. }
+      destruct next as [[| | | |x|]|]; [exact Hk | exact Hk | exact Hk | exact Hk | | exact Hk | exact Hk].
+      do 2 wp_prim. apply transition_H; [exact P | |].
+      + split; [exact T|]. split; [apply live_to_terminal; [exact G | exact Hl | right; reflexivity] | discriminate].
+      + intros w1 [_ H1] _ _. cbv beta iota. do 2 wp_prim. exact H1.
+  Qed.
+
+  Lemma run_action_handled id next w :
+    OPreH w -> pend w id -> is_terminated w = false -> legal w next ->
+    wp (run_action id next) (fun _ w' => handled w') w.
+  Proof.
+    intros P (ac & Hg & Hp) Hl Hleg. unfold run_action. do 2 wp_prim. rewrite Hg, Hp. do 2 wp_prim.
+    eapply wp_use; [apply action_body_handled; assumption|]. intros r w1 H1. do 2 wp_prim.
+    destruct (get_act w1 id) as [a'|]; [|wp_prim; exact H1].
+    destruct (a_fut a'); try (wp_prim; exact H1). unfold set_act_fut. wp_prim. exact H1.
+  Qed.
+
+  Lemma run_action_specH id next w (Q : result unit -> world -> Prop) :
+    OPreH w -> pend w id -> is_terminated w = false -> legal w next ->
+    (forall w', GAr (Some id) w' -> transitioning w' = false -> t0 w' = t0 w -> handled w' -> Q (Ok tt) w') -> wp (run_action id next) Q w.
+  Proof.
+    intros P Hp Hl Hleg HQ.
+    eapply wp_use; [apply (wp_conj _ (fun r w' => r = Ok tt /\ GAr (Some id) w' /\ transitioning w' = false /\ t0 w' = t0 w) (fun _ w' => handled w'))|].
+    - apply run_action_spec; [apply P | apply P | exact Hp|]. intros w' A B C. auto.
+    - apply run_action_handled; assumption.
+    - intros r w' [(-> & A & B & C) H]. apply HQ; assumption.
+  Qed.
+
+  Lemma run_armed_specH fuel : forall ran w (Q : result unit -> world -> Prop),
+    GAr ran w -> transitioning w = false -> nf w -> handled w ->
+    (forall r w', (exists ran', GAr ran' w') -> transitioning w' = false -> t0 w' = t0 w -> handled w' -> okf r -> Q r w') ->
+    wp (run_armed fuel ran) Q w.
+  Proof.
+    induction fuel as [|f IH]; intros ran w Q G T N H HQ; cbn [run_armed].
+    - wp_prim. apply HQ; [eexists; exact G | exact T | reflexivity | exact H | reflexivity].
+    - do 2 wp_prim.
+      assert (Hret : wp (ret tt) Q w) by (wp_prim; apply HQ; [eexists; exact G | exact T | reflexivity | exact H | exact I]).
+      destruct (is_terminated w) eqn:Et; [exact Hret|]. destruct (intr w) as [a|] eqn:Hi; [|exact Hret].
+      destruct (match ran with Some b => Nat.eqb a b | None => false end) eqn:Hsame; [exact Hret|].
+      assert (Hne : ran <> Some a).
+      { intro X. subst ran. rewrite Nat.eqb_refl in Hsame. discriminate. }
+      pose proof (GAr_GA _ _ _ G Hi Hne) as G'.
+      wp_prim. apply run_action_specH; [split; [split; [exact G' | split; assumption] | exact H] | apply G'; exact Hi | exact Et | exact I|].
+      intros w1 G1 T1 T01 H1. cbv beta iota. apply IH; [exact G1 | exact T1 | unfold nf in *; rewrite T01; exact N | exact H1|].
+      intros r w2 G2 T2 T02 H2 Hr. apply HQ; [exact G2 | exact T2 | congruence | exact H2 | exact Hr].
+  Qed.
+
+  Lemma handled_leq w w' : leq w w' -> (is_terminated w = true -> st w' = st w) -> handled w -> handled w'.
+  Proof.
+    intros (C & _ & _ & _ & _ & _ & _ & _ & O & _) S H. apply (keepH_handled w); [exact C | | exact H].
+    split; [unfold cnt; rewrite O; reflexivity | exact S].
+  Qed.
+
+  Lemma sia_st new w : wp (set_interrupt_action new) (fun _ w' => st w' = st w) w.
+  Proof. unfold set_interrupt_action, cancel_act, set_act_fut. repeat (wp_prim || wp_case); reflexivity. Qed.
+  Lemma sia_from_st kd c w : wp (set_interrupt_action_from kd c) (fun _ w' => st w' = st w) w.
+  Proof. unfold set_interrupt_action_from, set_interrupt_action, cancel_act, set_act_fut. repeat (wp_prim || wp_case); reflexivity. Qed.
+
+  Lemma finish_step_specH x w (Q : result unit -> world -> Prop) :
+    OPreH w -> (forall next, x = XoNext next -> legal w next) ->
+    (forall r w', OPreH w' -> okf r -> Q r w') -> wp (finish_step x) Q w.
+  Proof.
+    intros P Hleg HQ. unfold finish_step. wp_prim.
+    assert (Hfin : forall (r : result unit) ran w2, GAr ran w2 -> transitioning w2 = false -> nf w2 -> handled w2 -> okf r ->
+              wp (bind (modify (fun w => w <| stepping := false |>)) (fun _ => set_interrupt_action None))
+                 (fun r2 s'' => match r2 with Ok _ => Q r s'' | Err e => Q (Err e) s'' end) w2).
+    { intros r ran w2 G2 T2 N2 H2 Hr. do 2 wp_prim.
+      set (w3 := w2 <| stepping := false |>).
+      assert (G3 : GAr ran w3) by exact G2.
+      eapply wp_use; [apply wp_conj; [apply wp_conj; [apply (sia_FrL None w3 (fun r w' => leq w3 w')); auto | apply (sia_fun None w3 (fun r w' => r = Ok tt /\ intr w' = None)); auto] | apply sia_st]|].
+      intros r4 w4 [[L4 [-> I4]] S4]. apply HQ; [|exact Hr].
+      split.
+      - split; [eapply GAr_disarmed; eauto|]. destruct L4 as (_ & _ & _ & _ & _ & X & _ & T04 & _). split; [rewrite X; exact T2|].
+        unfold nf in *. rewrite T04. exact N2.
+      - apply (handled_leq w3); [exact L4 | intros _; exact S4 | exact H2]. }
+    assert (Hmid : forall next w1, OPreH w1 -> legal w1 next ->
+              wp (bind get (fun w => if is_terminated w then ret tt
+                                     else match intr w with
+                                          | Some a => bind (run_action a next) (fun _ => run_armed armed_fuel (Some a))
+                                          | None => bind (transition next) (fun _ => run_armed armed_fuel None)
+                                          end))
+                 (fun r s' => wp (bind (modify (fun w => w <| stepping := false |>)) (fun _ => set_interrupt_action None))
+                                 (fun r2 s'' => match r2 with Ok _ => Q r s'' | Err e => Q (Err e) s'' end) s') w1).
+    { intros next w1 P1 L1. pose proof P1 as [(G1 & T1 & N1) H1]. do 2 wp_prim. destruct (is_terminated w1) eqn:Et.
+      { wp_prim. apply (Hfin (Ok tt) None); [apply GA_GAr; exact G1 | exact T1 | exact N1 | exact H1 | exact I]. }
+      assert (Harm : forall ran w2, GAr ran w2 -> transitioning w2 = false -> nf w2 -> handled w2 ->
+                wp (run_armed armed_fuel ran)
+                   (fun r s' => wp (bind (modify (fun w => w <| stepping := false |>)) (fun _ => set_interrupt_action None))
+                                 (fun r2 s'' => match r2 with Ok _ => Q r s'' | Err e => Q (Err e) s'' end) s') w2).
+      { intros ran w2 G2 T2 N2 H2. apply run_armed_specH; [exact G2 | exact T2 | exact N2 | exact H2|]. intros r w3 [ran' G3] T3' T03 H3 Hr.
+        apply (Hfin r ran'); [exact G3 | exact T3' | unfold nf in *; rewrite T03; exact N2 | exact H3 | exact Hr]. }
+      destruct (intr w1) as [a|] eqn:Hi.
+      - wp_prim. apply run_action_specH; [exact P1 | apply G1; exact Hi | exact Et | exact L1|]. intros w2 G2 T2 T02 H2. cbv beta iota.
+        apply Harm; [exact G2 | exact T2 | unfold nf in *; rewrite T02; exact N1 | exact H2].
+      - wp_prim. destruct next as [ns|].
+        + apply transition_H; [exact P1 | apply legal_to_ok; assumption|]. intros w2 [(G2 & T2 & N2) H2] _ _. cbv beta iota.
+          apply Harm; [apply GA_GAr; exact G2 | exact T2 | exact N2 | exact H2].
+        + unfold transition, transition_to. do 2 wp_prim. rewrite T1. wp_prim. cbv beta iota.
+          apply Harm; [apply GA_GAr; exact G1 | exact T1 | exact N1 | exact H1]. }
+    pose proof P as [P0 H0].
+    wp_prim. destruct x as [next| |iid|x].
+    - wp_prim. cbv beta iota. apply Hmid; [exact P | apply Hleg; reflexivity].
+    - wp_prim. cbv beta iota. apply Hmid; [exact P | exact I].
+    - do 3 wp_prim. cbv zeta.
+      match goal with |- wp (if ?b then _ else _) _ _ => destruct b end.
+      + do 2 wp_prim. apply Hmid; [exact P | exact I].
+      + destruct (find (fun ac => Nat.eqb (a_cookie ac) iid) (acts w)).
+        * wp_prim. eapply wp_use; [apply wp_conj; [apply wp_conj; [apply (sia_from_XT None (a_kind a) iid w (fun r w1 => RK w w1)); [apply P0 | auto] | apply sia_from_total] | apply (FrN_keepH _ (sia_from_FrN (a_kind a) iid))]|].
+          intros r w1 [[R1 Hr] S1]. pose proof (OPre_of_RT _ _ _ P0 R1) as P1. destruct r; [|destruct Hr]. cbv beta iota.
+          do 2 wp_prim. apply Hmid; [|exact I]. split; [exact P1|].
+          apply (keepH_handled w); [apply R1 | exact S1 | exact H0].
+        * do 2 wp_prim. apply Hmid; [exact P | exact I].
+    - wp_prim. eapply wp_use; [apply wp_conj; [apply (sia_X None None w (fun r w1 => r = Ok tt /\ RK w w1)); [apply P0 | intros a X; discriminate | auto] | apply (FrN_keepH _ (sia_FrN None))]|].
+      intros r w1 [[-> R1] S1]. cbv beta iota.
+      pose proof (OPre_of_RT _ _ _ P0 R1) as P1. wp_prim. cbv beta iota.
+      apply Hmid; [|apply legal_always; [apply GA_lbl; apply P1 | right; left; reflexivity]].
+      split; [exact P1|]. apply (keepH_handled w); [apply R1 | exact S1 | exact H0].
+  Qed.
+
+  (* ---------------------------------------------------------------- the stepping loop, one callback, the environment *)
+  Definition LPostH (r : result unit) (w' : world) : Prop := OPreH w' /\ okf r /\ (is_ok r -> T3 w').
+
+  Lemma handled_same w w' : cfg w' = cfg w -> occ w' = occ w -> st w' = st w -> handled w -> handled w'.
+  Proof. intros C O S H. apply (keepH_handled w); [exact C | split; [unfold cnt; rewrite O; reflexivity | intros _; exact S] | exact H]. Qed.
+
+  Lemma step_body_specH (rest : LM unit) w (Q : result unit -> world -> Prop) :
+    OPreH w ->
+    (forall w1 (Q1 : result unit -> world -> Prop), OPreH w1 -> (forall r w', LPostH r w' -> Q1 r w') -> wp rest Q1 w1) ->
+    (forall r w', LPostH r w' -> Q r w') ->
+    wp (bind (modify (fun w => w <| stepping := true |>))
+             (fun _ => bind execute_state (fun x => match x with XoSuspended => ret tt | _ => bind (finish_step x) (fun _ => rest) end))) Q w.
+  Proof.
+    intros [(G & T & N) H] Hrest HQ. do 2 wp_prim.
+    match goal with |- wp _ _ ?w1 => assert (P1 : OPreH w1) by (split; [split; [apply GA_stepping; exact G | split; assumption] | exact H]) end.
+    wp_prim. apply execute_state_specH; [exact P1|]. intros x w2 R2 X2. cbv beta iota.
+    pose proof (ROH_pre _ _ R2) as P2.
+    assert (Hfs : wp (bind (finish_step x) (fun _ => rest)) Q w2).
+    { wp_prim. apply finish_step_specH; [exact P2 | intros next ->; exact X2|]. intros r w3 P3 Hr. destruct r; cbv beta iota.
+      - apply Hrest; [exact P3 | exact HQ].
+      - apply HQ. split; [exact P3|]. split; [exact Hr | intros []]. }
+    destruct x; try exact Hfs. wp_prim. apply HQ. split; [exact P2|]. split; [exact I | intros _; exact X2].
+  Qed.
+
+  Lemma set_t0_LH p w (Q : result unit -> world -> Prop) :
+    OPreH w -> okpc p -> (match p with PcInStep _ _ _ => False | _ => True end) ->
+    (forall r w', LPostH r w' -> Q r w') -> wp (set_t0 p) Q w.
+  Proof.
+    intros [(G & T & N) H] Hp Hn HQ. unfold set_t0. wp_prim. apply HQ.
+    split; [split; [split; [apply GA_t0; exact G | split; [exact T | exact Hp]] | exact H]|]. split; [exact I|]. intros _.
+    unfold T3. cbn. destruct p; try exact I. contradiction.
+  Qed.
+
+  Lemma loop_head_specH fuel : forall w (Q : result unit -> world -> Prop),
+    OPreH w -> (forall r w', LPostH r w' -> Q r w') -> wp (loop_head fuel) Q w.
+  Proof.
+    induction fuel as [|f IH]; intros w Q P HQ; cbn [loop_head].
+    - wp_prim. apply HQ. split; [exact P|]. split; [reflexivity | intros []].
+    - do 2 wp_prim. destruct (is_terminated w) eqn:Et; [apply set_t0_LH; [exact P | exact I | exact I | exact HQ]|].
+      destruct (closed w) eqn:Ec.
+      { exfalso. destruct P as [(((_ & G2 & _) & _) & _) _]. rewrite (G2 Ec) in Et. discriminate. }
+      destruct (paused w); [apply set_t0_LH; [exact P | exact I | exact I | exact HQ]|].
+      apply step_body_specH; [exact P | | exact HQ]. intros w1 Q1 P1 HQ1. apply IH; assumption.
+  Qed.
+
+  Definition TopH (w : world) : Prop := Top w /\ handled w.
+
+  Lemma resume_t0_specH wk w (Q : result unit -> world -> Prop) :
+    TopH w -> (forall r w', LPostH r w' -> Q r w') -> wp (resume_t0 wk) Q w.
+  Proof.
+    intros [[P0 H3] H0] HQ. assert (P : OPreH w) by (split; assumption). unfold resume_t0. do 2 wp_prim.
+    assert (Hloop : forall w1 (Q1 : result unit -> world -> Prop), OPreH w1 -> (forall r w', LPostH r w' -> Q1 r w') -> wp (loop_head chain_fuel) Q1 w1)
+      by (intros; apply loop_head_specH; assumption).
+    assert (Htail : forall (x : exec_out) w2, OPreH w2 -> xo_ok x w2 ->
+               wp (match x with XoSuspended => ret tt | _ => bind (finish_step x) (fun _ => loop_head chain_fuel) end) Q w2).
+    { intros x w2 P2 X2.
+      assert (Hfs : wp (bind (finish_step x) (fun _ => loop_head chain_fuel)) Q w2).
+      { wp_prim. apply finish_step_specH; [exact P2 | intros next ->; exact X2|]. intros r w3 P3 Hr. destruct r; cbv beta iota.
+        - apply Hloop; [exact P3 | exact HQ].
+        - apply HQ. split; [exact P3|]. split; [exact Hr | intros []]. }
+      destruct x; try exact Hfs. wp_prim. apply HQ. split; [exact P2|]. split; [exact I | intros _; exact X2]. }
+    destruct (t0 w) eqn:Et.
+    - apply Hloop; assumption.
+    - assert (Hb : wp (bind (modify (fun w => w <| stepping := true |>))
+                         (fun _ => bind execute_state (fun x => match x with XoSuspended => ret tt | _ => bind (finish_step x) (fun _ => loop_head chain_fuel) end))) Q w).
+      { apply step_body_specH; [exact P | exact Hloop | exact HQ]. }
+      destruct (paused w); [destruct (is_terminated w); [exact Hb|] | exact Hb].
+      apply set_t0_LH; [exact P | exact I | exact I | exact HQ].
+    - assert (Hr : run_or_term w) by (unfold T3 in H3; rewrite Et in H3; exact H3).
+      wp_prim.
+      assert (Ho : OatH (match wk with WkExn x => ret (SoRaised x) | _ => run_actions rest r end) w).
+      { destruct wk; first [apply run_actions_OH | apply OatH_ret]. }
+      apply Ho; [exact P|]. intros o w1 R1. cbv beta iota.
+      wp_prim. apply after_run_fn_specH; [eapply ROH_pre; eauto | eapply run_or_term_stable; [apply R1 | exact Hr]|].
+      intros x w2 R2 X2. cbv beta iota. apply Htail; [eapply ROH_pre; eauto | exact X2].
+    - do 3 wp_prim.
+      assert (Hw : forall fn, wp (after_waiting fn wid wk) (fun rx w2 => match rx with
+                      | Ok x => wp (bind (finish_step x) (fun _ => loop_head chain_fuel)) Q w2 | Err x => Q (Err x) w2 end) w).
+      { intro fn. apply after_waiting_specH; [exact P|]. intros x w2 R2 X2.
+        pose proof (ROH_pre _ _ R2) as P2.
+        wp_prim. apply finish_step_specH; [exact P2 | intros next ->; exact X2|]. intros r w3 P3 Hr. destruct r; cbv beta iota.
+        - apply Hloop; [exact P3 | exact HQ].
+        - apply HQ. split; [exact P3|]. split; [exact Hr | intros []]. }
+      destruct (st w) as [[]|]; apply Hw.
+    - wp_prim. apply HQ. split; [exact P|]. split; [exact I | intros _; exact H3].
+    - wp_prim. apply HQ. split; [exact P|]. split; [exact I | intros _; exact H3].
+  Qed.
+
+  Lemma TopH_K w w' : TopH w -> HRel w w' -> TopH w'.
+  Proof. intros [T H] [R H']. split; [eapply Top_K; eauto | exact H']. Qed.
+
+  Lemma TopH_frame w w' : TopH w -> eeq w w' -> keepH w w' -> TopH w'.
+  Proof. intros [T H] E Kp. split; [eapply Top_eeq; eauto|]. apply (keepH_handled w); [apply E | exact Kp | exact H]. Qed.
+
+  Lemma emit_TopH ev w (Q : result unit -> world -> Prop) :
+    TopH w -> ev_ok ev = true -> (forall w', TopH w' -> Q (Ok tt) w') -> wp (emit ev) Q w.
+  Proof.
+    intros H He HQ. unfold emit. wp_prim. apply HQ. eapply TopH_frame; [exact H | | split; [reflexivity | intros _; reflexivity]].
+    repeat split; try reflexivity. intro X. apply errs_ok_snoc; assumption.
+  Qed.
+
+  Lemma TopH_HPre w : TopH w -> HPre w.
+  Proof. intros [[P _] H]. split; [apply P | exact H]. Qed.
+
+  Lemma ctl_call_TopH c w (Q : result cret -> world -> Prop) :
+    TopH w -> (forall r w', TopH w' -> (must_return c = true -> is_ok r) -> Q r w') -> wp (ctl_call c) Q w.
+  Proof.
+    intros H HQ.
+    eapply wp_use; [apply (wp_conj _ (fun r w' => must_return c = true -> is_ok r) (fun _ w' => HRel w w'))|].
+    - apply ctl_call_spec; [apply H|]. intros r w' _ T. apply T. apply H.
+    - unfold ctl_call. apply do_ctl_HK; [apply TopH_HPre; exact H | auto].
+    - intros r w' [A R]. apply HQ; [eapply TopH_K; eauto | exact A].
+  Qed.
+
+  Lemma ctl_observed_TopH c w (Q : result cret -> world -> Prop) :
+    TopH w -> (forall x w', TopH w' -> Q (Ok x) w') -> wp (ctl_observed c) Q w.
+  Proof.
+    intros H HQ. apply ctl_observed_H; [apply TopH_HPre; exact H|]. intros x w' R. apply HQ. eapply TopH_K; eauto.
+  Qed.
+
+  Lemma run_entry_specH r w (Q : result unit -> world -> Prop) :
+    TopH w -> (forall w', TopH w' -> Q (Ok tt) w') -> wp (run_entry r) Q w.
+  Proof.
+    intros H HQ. destruct r as [wk|cb|]; cbn [run_entry].
+    - do 2 wp_prim. apply resume_t0_specH; [exact H|]. intros r w1 (P1 & Hr & H3). destruct r as [u|x]; cbv beta iota.
+      + wp_prim. apply HQ. destruct P1 as [P1 H1]. split; [split; [exact P1 | apply H3; exact I] | exact H1].
+      + cbn in Hr. subst x. unfold set_t0, emit. do 3 wp_prim. apply HQ.
+        destruct P1 as [(G1 & T1 & N1) H1]. destruct G1 as ((A1 & A2 & A3 & A5 & A6) & A4).
+        split; [|exact H1].
+        split; [split; [split; [repeat split; try assumption|exact A4] | split; [exact T1 | reflexivity]] | exact I].
+        apply errs_ok_snoc; [exact A6 | reflexivity].
+    - wp_prim. apply emit_TopH; [exact H | reflexivity|]. intros w1 H1. cbv beta iota. do 4 wp_prim.
+      assert (Hbody : wp (match nth_error (cf_callbacks (cfg w1)) cb with
+                          | Some CbOk | None => ret tt
+                          | Some (CbRaise x) => raise x
+                          | Some (CbCtl c) => bind (ctl_observed c) (fun r => emit (EvCtl c r))
+                          end) (fun r w2 => TopH w2) w1).
+      { destruct (nth_error (cf_callbacks (cfg w1)) cb) as [[]|]; try (wp_prim; exact H1).
+        wp_prim. apply ctl_observed_TopH; [exact H1|]. intros x w2 H2. cbv beta iota.
+        apply emit_TopH; [exact H2 | reflexivity|]. intros w3 H3'. exact H3'. }
+      eapply wp_use; [exact Hbody|]. intros r2 w2 H2. cbv beta iota. destruct r2 as [u|x]; cbv beta iota; [wp_prim; apply HQ; exact H2|].
+      do 2 wp_prim.
+      assert (Hfail : wp (bind (attempt (ctl_call (CFail x))) (fun y => match y with Ok _ => ret tt | Err e' => emit (EvLoopError e') end)) Q w2).
+      { do 2 wp_prim. apply ctl_call_TopH; [exact H2|]. intros r3 w3 H3' Hr. destruct r3; [|destruct (Hr eq_refl)]. cbv beta iota. wp_prim. apply HQ. exact H3'. }
+      destruct (st w2) as [[]|]; try exact Hfail. wp_prim. apply HQ. exact H2.
+    - do 2 wp_prim. destruct (orig_fut_cancelled w); [|wp_prim; apply HQ; exact H].
+      do 2 wp_prim. apply ctl_call_TopH; [exact H|]. intros r3 w3 H3' Hr. destruct r3; [|destruct (Hr eq_refl)]. cbv beta iota. wp_prim. apply HQ. exact H3'.
+  Qed.
+
+  Lemma tick_specH w (Q : result unit -> world -> Prop) :
+    TopH w -> (forall w', TopH w' -> Q (Ok tt) w') -> wp tick Q w.
+  Proof.
+    intros H HQ. unfold tick. do 2 wp_prim. destruct (ready w) as [|r rest]; [wp_prim; apply HQ; exact H|].
+    do 2 wp_prim. apply run_entry_specH; [|exact HQ]. eapply TopH_frame; [exact H | repeat split; auto | split; [reflexivity | intros _; reflexivity]].
+  Qed.
+
+  Lemma drain_specH n : forall w (Q : result unit -> world -> Prop),
+    TopH w -> (forall w', TopH w' -> Q (Ok tt) w') -> wp (drain n) Q w.
+  Proof.
+    induction n as [|n IH]; intros w Q H HQ; cbn [drain]; [wp_prim; apply HQ; exact H|].
+    do 2 wp_prim. destruct (ready w) eqn:Er; [wp_prim; apply HQ; exact H|].
+    wp_prim. apply tick_specH; [exact H|]. intros w1 H1. cbv beta iota. apply IH; assumption.
+  Qed.
+
+  Lemma env_step_m_specH ev w (Q : result unit -> world -> Prop) :
+    TopH w -> ev <> ECancelFuture -> (forall w', TopH w' -> Q (Ok tt) w') -> wp (env_step_m ev) Q w.
+  Proof.
+    intros H Hne HQ. destruct ev; cbn [env_step_m].
+    - apply tick_specH; assumption.
+    - wp_prim. apply ctl_observed_TopH; [exact H|]. intros x w1 H1. cbv beta iota.
+      apply emit_TopH; [exact H1 | reflexivity | exact HQ].
+    - contradiction.
+    - unfold schedule. wp_prim. apply HQ. eapply TopH_frame; [exact H | repeat split; auto | split; [reflexivity | intros _; reflexivity]].
+    - do 2 wp_prim. destruct (find (fun kw => Nat.eqb (fst kw) k0) (exts w)); [wp_prim; apply HQ; exact H|].
+      do 2 wp_prim.
+      match goal with |- wp _ _ ?wx => assert (H1 : TopH wx) by (eapply TopH_frame; [exact H | repeat split; auto | split; [reflexivity | intros _; reflexivity]]) end.
+      destruct (t0 w); try (wp_prim; apply HQ; exact H1). destruct await_ext; [|wp_prim; apply HQ; exact H1].
+      apply wp_when_i; intro; [|apply HQ; exact H1]. unfold schedule. wp_prim. apply HQ.
+      eapply TopH_frame; [exact H1 | repeat split; auto | split; [reflexivity | intros _; reflexivity]].
+    - apply drain_specH; assumption.
+  Qed.
+
+  Lemma env_step_TopH w ev : TopH w -> ev <> ECancelFuture -> TopH (env_step w ev).
+  Proof.
+    intros H Hne. unfold env_step. apply (wp_run (env_step_m ev) (fun _ w' => TopH w') w).
+    apply env_step_m_specH; [exact H | exact Hne | auto].
+  Qed.
+
+  Lemma run_from_TopH es : forall w, TopH w -> ~ In ECancelFuture es -> TopH (run_from w es).
+  Proof.
+    induction es as [|ev es IH]; intros w H Hn; cbn; [exact H|].
+    apply IH; [apply env_step_TopH; [exact H | intro X; apply Hn; left; exact X] | intro X; apply Hn; right; exact X].
+  Qed.
 End Fault.
+
+(* ------------------------------------------------------------------ construction, every run *)
+Lemma constructed_shape c u w : construct_process c = (Ok u, w) -> cfg w = c /\ occ w = [("on_create", 1)].
+Proof.
+  intro Hc. destruct c as [prog cbs ls fault osp]. unfold construct_process in Hc.
+  unfold transition in Hc. revert Hc. generalize (do_ctl reent_fuel). intros rec Hc.
+  destruct fault as [[[h k] e]|].
+  - vm_compute in Hc.
+    match type of Hc with context [match ?b with true => _ | false => _ end] => destruct b end; [discriminate Hc|].
+    injection Hc as _ <-. split; reflexivity.
+  - vm_compute in Hc. injection Hc as _ <-. split; reflexivity.
+Qed.
+
+(* C03, every run: once the injected fault of a transition hook has fired, the process is EXCEPTED with exactly that exception *)
+Theorem fault_ends_excepted c es w h k e :
+  run c es = Some w -> ~ In ECancelFuture es ->
+  cf_fault c = Some (h, k, e) -> smhook h = true -> k < nat_assoc h (occ w) ->
+  st w = Some (SExcepted e).
+Proof.
+  intros Hr Hn Hf Hsm Hk. unfold run in Hr. destruct (construct_process c) as [[u|x] w0] eqn:Hc; [|discriminate].
+  injection Hr as <-. destruct (constructed_shape _ _ _ Hc) as [C0 O0].
+  assert (T0 : TopH h k e w0).
+  { split; [eapply constructed_Top; eauto|]. intros _ X. exfalso. unfold cnt in X. rewrite O0 in X. cbn in X.
+    rewrite (sm_not_other h Hsm "on_create") in X; [lia | cbn; tauto]. }
+  destruct (run_from_TopH h k e Hsm es w0 T0 Hn) as [_ H]. apply H; [|exact Hk].
+  unfold flt. rewrite run_from_cfg, C0. exact Hf.
+Qed.
